@@ -125,7 +125,7 @@ Lemma CplI_closing_phase fuel s : CplI true s -> CplI true (closing_phase fuel s
 Proof.
   revert s. induction fuel as [|f IH]; intros s H; cbn [closing_phase]; [auto with cplI|].
   destruct (closing s) as [|i r]; [exact H|]. sproj.
-  destruct (alookup Z.eqb i (clients s)) as [c|]; [destruct (c_cb c)|]; apply IH; auto 8 with cplI.
+  destruct (alookup Z.eqb i (clients s)) as [c|]; [destruct (c_cb c); [|destruct (c_rm c)]|]; apply IH; auto 8 with cplI.
 Qed.
 
 Lemma CplI_introduce e k i acc s : CplI true s -> CplI true (introduce e k i acc s).
@@ -213,8 +213,8 @@ Proof.
   revert items s. induction fuel as [|f IH]; intros items s HI H; cbn [run_loop];
     [exists true; split; [auto with cplI | sproj; discriminate]|].
   cbn zeta.
-  set (s1 := closing_phase f (timer_phase f (clk s) (log (EvNow (clk s)) s))).
-  assert (SInv s1) as HI1 by (apply SInv_closing_phase; apply SInv_timer_phase; apply SInv_log; exact HI).
+  set (s1 := closing_phase f (timer_phase f (clk s) (log (EvSel (sel_view (selected s))) (log (EvNow (clk s)) s)))).
+  assert (SInv s1) as HI1 by (apply SInv_closing_phase; apply SInv_timer_phase; apply SInv_log; apply SInv_log; exact HI).
   assert (CplI true s1) as H1 by (apply CplI_closing_phase; apply CplI_timer_phase; auto with cplI).
   destruct (stuck s1) eqn:Est; [exists true; split; [exact H1 | congruence]|].
   match goal with |- context [poll ?t items s1] => set (tmo := t) end.
